@@ -197,9 +197,29 @@ def lowrank_contract(rep, mir, L):
                 if len(ev) != 1 or v is not True: bad.append(('adapt with %d draws does not run the estimation once and report a change' % k,)); continue
                 dm, gm = ev[0][1].f[0], ev[0][2].f[0]
                 if not same(dm, get(before, 'draws')) or not same(gm, get(before, 'grads')): bad.append(('the estimation pipeline does not receive exactly the kept window (draw i / gradient i as column i)', 'k=%d' % k))
+    # a new strategy starts with an empty window and no background split; init() records exactly the start point
+    try:
+        newf = meth('new'); initf = meth('init')
+        vm.add_model(r' as Math>::dim$', lambda vm, m, c, a: ret(m, DIM))
+        vm.add_model(r'^LowRankMassMatrix::<M>::update_from_grad$', lambda vm, m, c, a: ret(m, UNIT))
+        vm.add_model(r' as Point<M>>::position$|^<impl Point<M> as Point<M>>::position$', lambda vm, m, c, a: ret(m, Ref(m.ghost['pos'])))
+        vm.add_model(r' as Point<M>>::gradient$|^<impl Point<M> as Point<M>>::gradient$', lambda vm, m, c, a: ret(m, Ref(m.ghost['grad'])))
+        m = Machine(); m.ghost['events'] = []; m.ghost['pos'] = m.alloc(tag('px', 0)); m.ghost['grad'] = m.alloc(tag('pg', 0))
+        o = vm.run(newf, [Ref(m.alloc(Opaque('math'))), Opaque('settings'), z3.Int('num_tune'), z3.Int('chain')], m); npaths += len(o)
+        (m1, k1, st0) = o[0]
+        if k1 != 'ret' or len(get(st0, 'draws').items) != 0 or len(get(st0, 'grads').items) != 0 or get(st0, 'background_split') != 0: bad.append(('a new low-rank strategy does not start with an empty window and split 0', str(st0)[:120]))
+        else:
+            c0 = m1.alloc(st0)
+            o = vm.run(initf, [Ref(c0), Ref(m1.alloc(Opaque('math'))), Ref(m1.alloc(Opaque('nuts options'))), Ref(m1.alloc(Opaque('mass matrix'))), Ref(m1.alloc(Opaque('point'))), Ref(m1.alloc(Opaque('rng')))], m1); npaths += len(o)
+            for (m2, k2, v2) in o:
+                st1 = m2.mem[c0]
+                if k2 != 'ret' or v2.name != 'Ok' or not same(get(st1, 'draws'), Seq([tag('px', 0)])) or not same(get(st1, 'grads'), Seq([tag('pg', 0)])) or get(st1, 'background_split') != 0:
+                    bad.append(('init() does not leave exactly the start point (position, gradient) in the window with split 0', str(st1)[:160]))
+    except Exception as e:
+        rep.unknown('C09 low-rank strategy new/init', '%s: %s' % (type(e).__name__, str(e)[:200]))
     rep.paths += npaths; rep.absorb_vm(vm)
     if bad: rep.violated('C09 LowRankMassMatrixStrategy satisfies the estimator contract', 'lowrank.contract', 'low-rank strategy: %s' % (bad[0],), model={'problems': [str(x)[:300] for x in bad[:8]]})
-    else: rep.holds('C09 LowRankMassMatrixStrategy (window of 0..4 draws, every split): update_estimators appends (draw, gradient) iff the draw is good, switch drops exactly the draws before the previous switch and starts an empty background, counts are exact, adapt needs >= 3 draws and feeds exactly the kept window to the estimation (%d paths)' % npaths)
+    else: rep.holds('C09 LowRankMassMatrixStrategy (window of 0..4 draws, every split): update_estimators appends (draw, gradient) iff the draw is good, switch drops exactly the draws before the previous switch and starts an empty background, counts are exact, adapt needs >= 3 draws and feeds exactly the kept window to the estimation; new() starts empty with split 0 and init() records exactly the start point (%d paths)' % npaths)
 
 
 SCHEDULES = [  # fractions are binary fractions so that exact reals and f64 agree in GlobalStrategy::new
